@@ -139,6 +139,17 @@ def construct_cases(rng, n, ctx):
         if kind == 'namecount':
             samples = samples + [rng.normal(size=6)]
             ncount = len(samples)
+        if use_idl and i % 2 == 0:
+            # history: arithmetic on OTHER observables whose merged configuration list agrees with the requested one in length, first and last entry
+            # - what the constructor accepts, rejects and turns into a range does not depend on what was computed before
+            for l2_ in idls:
+                l2_ = [int(x) for x in l2_]
+                n_ = len(l2_)
+                if n_ >= 6 and l2_[0] + n_ - 1 < l2_[-1]:
+                    U = [l2_[0]] + [l2_[0] + q for q in range(1, n_ - 1)] + [l2_[-1]]
+                    pa = pe.Obs([rng.normal(size=n_ - 1)], ['prime|r1'], idl=[U[:1] + U[2:]])
+                    pb = pe.Obs([rng.normal(size=n_ - 1)], ['prime|r1'], idl=[U[:2] + U[3:]])
+                    _call(lambda: pa + pb)
         if use_idl:
             out = _call(lambda: pe.Obs(samples, names_arg, idl=idl_arg))
         else:
@@ -155,10 +166,14 @@ def covobs_cases(rng, n, ctx):
     cases = []
     for i in range(n):
         dim = int(rng.integers(1, 4))
+        if i % 8 == 5:
+            dim = max(dim, 2)
         a = rng.integers(-3, 4, size=(dim, dim)).astype(float)
         cov = a @ a.T + np.eye(dim)            # integer entries, positive definite by a margin
         kind = str(rng.choice(['valid', 'valid', 'valid1d', 'pipe', 'asym', 'indef', 'nmeans', 'semidef']))
         # covariances of very different magnitude (exact powers of two): symmetry and definiteness do not depend on the scale
+        if i % 8 == 5:
+            kind = 'indef1d'       # variances handed over as a 1-d list, one of them negative, together with a gradient whose quadratic form is positive
         scale = 1.0 if kind == 'semidef' else float(rng.choice([1.0, 1.0, 2.0 ** -33, 2.0 ** -40, 2.0 ** 20]))
         cov = cov * scale
         name = 'sys%d' % i
@@ -169,6 +184,10 @@ def covobs_cases(rng, n, ctx):
         psdmargin = False
         if kind == 'valid1d':
             cov = np.diag(np.abs(np.diag(cov)))
+            arg = np.diag(cov).copy()
+        elif kind == 'indef1d':
+            cov = np.diag(np.abs(np.diag(cov)))
+            cov[dim - 1, dim - 1] = -0.5 * scale
             arg = np.diag(cov).copy()
         elif kind == 'pipe':
             name = 'sys|1'
@@ -191,6 +210,8 @@ def covobs_cases(rng, n, ctx):
         grad = None
         if kind != 'nmeans' and rng.random() < 0.35:
             grad = [float(np.round(rng.uniform(-2, 2), 2)) for _ in range(dim)]
+        if kind == 'indef1d':
+            grad = [1.0] * (dim - 1) + [0.5]
         cov_before = [[rat(float(x)) for x in row] for row in np.atleast_2d(cov)]
         arg = np.array(arg, dtype=float)          # the caller's own buffer ...
         out = _call(lambda: pe.cov_Obs(means if len(means) > 1 else means[0], arg, name, **({'grad': grad} if grad is not None else {})))
